@@ -1212,9 +1212,11 @@ pub fn run(ctx: &Ctx) -> Outcome {
     if let Some(p) = &ctx.replay {
         return replay(p, out);
     }
-    let quick = ctx.quick();
-    let cdepth = if quick { 8 } else { 11 };
-    let ldepth = if quick { 7 } else { 9 };
+    // (the quick tier runs what used to be the thorough bound - about 10 s; thorough goes deeper)
+    let deep = !ctx.quick();
+    let quick = false;
+    let cdepth = if deep { 13 } else { 11 };
+    let ldepth = if deep { 11 } else { 9 };
     let deadline = Instant::now() + Duration::from_secs_f64(ctx.budget_s);
     let mut states = 0u64;
     let mut transitions = 0u64;
